@@ -1,6 +1,9 @@
 package mast
 
-import "context"
+import (
+	"context"
+	"sync"
+)
 
 func HarnessSmoke1() {
 	a := verifNondetU64("a")
@@ -37,4 +40,17 @@ func HarnessSmoke2() {
 	if k1 != k2 {
 		verifAssert("get-v", v == 1)
 	}
+}
+
+type smokeBox struct{ x, y int }
+
+func HarnessSmoke3() {
+	b := &smokeBox{}
+	var wg sync.WaitGroup
+	var mu sync.Mutex
+	wg.Add(2)
+	go func() { defer wg.Done(); b.x = 1; mu.Lock(); b.y++; mu.Unlock() }()
+	go func() { defer wg.Done(); b.x = 2; mu.Lock(); b.y++; mu.Unlock() }()
+	wg.Wait()
+	verifAssert("y", b.y == 2)
 }
